@@ -334,7 +334,12 @@ func (u *Unit) oblige(s *State, name string, props []string, kind, goal string, 
 		}
 	}
 	u.obligs = append(u.obligs, o)
-	s.assume(goal)
+	// the checked condition holds from here on (assert semantics). A goal that is literally false (a write outside the
+	// frame, a missing variant) is not assumed: it would make everything after it on the path vacuously true, also
+	// the obligations of other properties, whose checks do not see this failure
+	if goal != "false" {
+		s.assume(goal)
+	}
 }
 
 func (u *Unit) safety(s *State, in ssa.Instruction, kind, goal string) {
@@ -668,6 +673,9 @@ func (u *Unit) havocGhostIfCalls(s *State, l *Loop) {
 	for _, k := range keys {
 		if !may["*"] && !may[k] {
 			continue
+		}
+		if !may[k] && !u.p.ghostHasSets(k) {
+			continue // only this unit's set-at-call clauses update it, and none of them is inside the loop
 		}
 		if strings.HasPrefix(k, "$seen") {
 			// maintained by the engine at Next; havocked like any loop-carried ghost
